@@ -30,6 +30,8 @@ class FakeTransport:
         self.can_log = False
         self.protocol = None
         self.connect_task = None
+        self.on_disconnect = None
+        self.disconnects = 0
 
     def send(self, message):
         if not message:
@@ -37,7 +39,10 @@ class FakeTransport:
         self.log.append(message)
 
     def disconnect(self):
-        pass
+        self.disconnects += 1
+        hook, self.on_disconnect = self.on_disconnect, None
+        if hook is not None:
+            hook()
 
     def connect(self):
         pass
@@ -154,12 +159,29 @@ def real_update_fw(gw, nids, fwt, fwv, image):
             os.unlink(path)
 
 
+def real_stop(gw):
+    """Gateway.stop() as a user calls it (Tasks.stop: disconnect, stop the pump, final save)."""
+    import asyncio
+    if asyncio.iscoroutinefunction(gw.stop):
+        loop = asyncio.new_event_loop()
+        try:
+            loop.run_until_complete(gw.stop())
+            loop.run_until_complete(loop.shutdown_default_executor())
+        finally:
+            loop.close()
+    else:
+        gw.stop()
+
+
 class RealGW:
     """Runs ops on the real library, inline pump (the asyncio flavour's add_job)."""
 
     def __init__(self, version="2.2", kind="base", persist="none", workdir=None, raising_cb=False,
                  in_prefix="", out_prefix=""):
         self.version = version
+        # "<kind>-nocb": the same gateway constructed without an event callback (the keyword is optional)
+        self.nocb = kind.endswith("-nocb")
+        kind = kind[:-5] if self.nocb else kind
         self.kind = kind
         self.persist = persist
         self.workdir = workdir
@@ -186,6 +208,8 @@ class RealGW:
         import mysensors
         from mysensors import BaseAsyncGateway
         kwargs = dict(event_callback=self._callback, protocol_version=self.version)
+        if self.nocb:
+            del kwargs["event_callback"]
         if self.persist != "none":
             kwargs["persistence"] = True
             kwargs["persistence_file"] = os.path.join(self.workdir, "state." + self.persist)
@@ -209,6 +233,37 @@ class RealGW:
             self.gw = BaseAsyncGateway(self.transport, **kwargs)
         del mysensors
 
+    def apply_line_during_stop(self, lop, xop):
+        """The pump handles one more line at the moment stop() reaches transport.disconnect() (the
+        connection is still up, so its reply goes out); stop() then carries on.  Observations are
+        those of the line and of the stop, in that order."""
+        got = []
+
+        def hook():
+            got.append(self.apply(lop))
+            self._resume = len(self.transport.log)
+        real_transport = self.gw.tasks.transport      # the fake one, or the MQTT transport
+        orig = real_transport.disconnect
+
+        def disconnect():
+            del real_transport.disconnect
+            hook()
+            return orig()
+        real_transport.disconnect = disconnect
+        try:
+            obs_stop = self.apply(xop)
+        finally:
+            real_transport.__dict__.pop("disconnect", None)
+        if not got:
+            missing = Obs()
+            missing.exc = "StopDidNotDisconnect"
+            missing.state = obs_stop.state
+            missing.tree = obs_stop.tree
+            missing.ota = obs_stop.ota
+            missing.need_save = obs_stop.need_save
+            got.append(missing)
+        return [got[0], obs_stop]
+
     def _mqtt_line(self, topic, payload, qos):
         # what was published, as the equivalent command line (for a uniform sent-log)
         levels = topic[len(self.out_prefix):].split("/")[1:]
@@ -220,6 +275,7 @@ class RealGW:
         obs = Obs()
         self._cur = obs
         before = len(self.transport.log)
+        self._resume = 0
         kind = op[0]
         orig_localtime = handler.time.localtime
         handler.time.localtime = lambda *a: time.gmtime(self.clock)
@@ -244,8 +300,7 @@ class RealGW:
                 if self.gw.tasks.persistence:
                     self.gw.tasks.persistence.save_sensors()
             elif kind == "X":
-                if self.gw.tasks.persistence:
-                    self.gw.tasks.persistence.save_sensors()
+                real_stop(self.gw)
             elif kind == "R":
                 self._make()
                 if self.gw.tasks.persistence:
@@ -257,7 +312,7 @@ class RealGW:
             obs.exc = exc_kind(exc)
         finally:
             handler.time.localtime = orig_localtime
-        obs.sent = list(self.transport.log[before:])
+        obs.sent = list(self.transport.log[max(before, self._resume):])
         obs.state = project_sensors(self.gw.sensors)
         obs.tree = project_persisted(self.gw.sensors)
         obs.canlog = bool(self.gw.can_log)
@@ -274,7 +329,17 @@ def run_history(hist, version, kind="base", persist="none", raising_cb=False, in
     workdir = tempfile.mkdtemp(prefix="verif-gw-") if persist != "none" else None
     try:
         gw = RealGW(version, kind, persist, workdir, raising_cb, in_prefix, out_prefix)
-        return [gw.apply(op) for op in hist], gw
+        obs, i = [], 0
+        while i < len(hist):
+            if hist[i][0] == "L" and i + 1 < len(hist) and hist[i + 1][0] == "X":
+                # the last line before a stop is handled while stop() is already running (see
+                # apply_line_during_stop): a legal schedule with the same meaning as line-then-stop
+                obs.extend(gw.apply_line_during_stop(hist[i], hist[i + 1]))
+                i += 2
+            else:
+                obs.append(gw.apply(hist[i]))
+                i += 1
+        return obs, gw
     finally:
         if workdir:
             shutil.rmtree(workdir, ignore_errors=True)
@@ -304,6 +369,7 @@ def op_wire(op):
 
 
 def gw_wire(version, kind, persist):
+    kind = kind[:-5] if kind.endswith("-nocb") else kind      # the model has no callback to omit
     return f"G {version} {kind} {persist}"
 
 
@@ -495,9 +561,25 @@ def gen_stream(rng, const, node):
         payload = fw_hex(fwt, fwv, rng.choice([0, 1, 7, 8, 12, 13, 100, 65535]))
         sub = st.ST_FIRMWARE_REQUEST
     elif r < 0.9:
-        payload = rng.choice(["zz", "0102", "010", "", "0100010000", "01000100000000000000aa", "é" * 4,
-                              "0100010000000000000G", "AbCdEf0011223344aBcD"])
         sub = rng.choice([st.ST_FIRMWARE_CONFIG_REQUEST, st.ST_FIRMWARE_REQUEST])
+        if rng.random() < 0.35:
+            payload = rng.choice(["zz", "0102", "010", "", "0100010000", "01000100000000000000aa", "é" * 4,
+                                  "0100010000000000000G", "AbCdEf0011223344aBcD"])
+        else:
+            # a well-formed request damaged in one way: cut or extended to every length around the
+            # required one (one word short / long included), or one character made non-hexadecimal
+            if sub == st.ST_FIRMWARE_CONFIG_REQUEST:
+                good = fw_hex(fwt, fwv, rng.randrange(100), rng.randrange(65536), rng.randrange(65536))
+            else:
+                good = fw_hex(fwt, fwv, rng.choice([0, 1, 7, 8, 100]))
+            if rng.random() < 0.7:
+                n = rng.randrange(0, len(good) + 9)
+                payload = (good + "".join(rng.choice("0123456789abcdef") for _ in range(8)))[:n]
+                if n == len(good):
+                    payload = good[:-4]          # keep this branch malformed: exactly one word short
+            else:
+                k = rng.randrange(len(good))
+                payload = good[:k] + rng.choice(["g", "é", " ", "-", "x", "٠"]) + good[k + 1:]
     else:
         payload = rng.choice(["", "abc"])
         sub = rng.choice([st.ST_SOUND, st.ST_IMAGE, st.ST_FIRMWARE_RESPONSE, st.ST_FIRMWARE_CONFIG_RESPONSE])
